@@ -5,6 +5,9 @@
 //!        vharness <group> --replay FILE --out DIR
 mod util;
 mod g_frame;
+mod node;
+mod schemes;
+mod g_sess;
 
 use std::io::Write;
 use util::*;
@@ -22,6 +25,7 @@ pub trait Group {
 fn group_by_name(name: &str) -> Option<Box<dyn Group>> {
     match name {
         "frame" => Some(Box::new(g_frame::FrameGroup)),
+        "sess" => Some(Box::new(g_sess::SessGroup)),
         _ => None,
     }
 }
